@@ -65,8 +65,10 @@ def future_method(engine, st, fr, selfv, name, args, kwargs, node):
         st.put("$fexc", oid, NONE)
         yield st, None
     elif name == "done":
+        st.trace.append(Event("state-read", recv=oid, meth="done", site=engine.site(fr, node), held=list(st.held), depth=fr.depth))
         yield st, Z(st.done(oid), "bool")
     elif name == "cancelled":
+        st.trace.append(Event("state-read", recv=oid, meth="cancelled", site=engine.site(fr, node), held=list(st.held), depth=fr.depth))
         yield st, Z(st.cancelled(oid), "bool")
     elif name == "running":
         yield st, Z(s == RUNNING, "bool")
